@@ -40,7 +40,7 @@ func (session *HermesSession) Run(workingDir string, args []string, logID string
 
 		argValues := make(map[string]string)
 		for _, token := range args {
-			splitup := strings.Split(token, "=")
+			splitup := strings.SplitN(token, "=", 2) // the value may itself contain '=' (a folder name, a file name)
 			if len(splitup) == 2 {
 				argValues[splitup[0]] = splitup[1]
 			}
